@@ -24,13 +24,13 @@ class C26(Prop):
         "horizon with exactly the sent replies in its state); the idle-release decorator aborts the run only at instants at which no step "
         "body is in flight; the control-loop life spans recorded per run id never overlap (at no time two live control loops for one "
         "run) and every release is followed by at most one new control loop before the next release. Non-trivial = a burst of sends "
-        "landed within 0.5 s of a release or at least two concurrent sends hit a released run. A third of the cases instead drive the real "
+        "landed within 0.5 s of a release or at least two concurrent sends hit a released run. A quarter of the cases instead drive the real "
         "SqliteRunLifecycleLock (the DBOS stack's lifecycle lock, on the real migration DDL) with groups of 1-4 concurrent create / begin_release / "
         "complete_release / try_begin_resume(crash_timeout) calls over two run ids and virtual sleeps around the crash timeout: every group must be "
         "explained by some serial order of a 3-state reference model (return values and stored states), and no two resumers of one group are granted ownership."
     )
     assumptions = [
-        "the DBOS half is covered only as far as it runs without the DBOS engine: the real SqliteRunLifecycleLock is driven directly (asyncpg is an import-only stand-in); DBOSIdleReleaseDecorator and the Postgres lock need DBOS/Postgres and are not exercised",
+        "the DBOS half is covered only as far as it runs without the DBOS engine: the real SqliteRunLifecycleLock is driven directly (asyncpg is an import-only stand-in), and one case in four runs the real DBOSIdleReleaseDecorator over an EMULATED DBOS base with an in-memory lifecycle lock (vlib/dbos_idle.py: what is emulated and which regions are excluded is listed there); the DBOS engine, Postgres and the Postgres lock are not run",
         "abort instants are observed by a harness-side wrapper over IdleReleaseDecorator._abort_inner_run; control-loop life spans by a harness-side wrapper over _ControlLoopRunner.run",
         "the number of sends equals the number of replies the workflow needs, so a lost send is decided as 'not completed at the virtual horizon'",
     ]
@@ -45,6 +45,10 @@ class C26(Prop):
 
         boot.patch_datetime(lc)
         self.lc = lc
+        from .. import dbos_idle
+
+        dbos_idle.setup()
+        self.dbos = dbos_idle
         self.lc_ddl = open(os.path.join(boot.REPO, "packages/llama-agents-dbos/src/llama_agents/dbos/_store/sqlite/migrations/0001_init.sql")).read()
 
     def strategy(self, tier):
@@ -86,7 +90,10 @@ class C26(Prop):
                 steps.append({"ops": ops, "sleep": draw(st.sampled_from([0, 0, 1, 4, 6, 31]))})
             return {"kind": "lock", "steps": steps}
 
-        return st.one_of(case(), case(), lock_case())
+        from .. import dbos_idle
+
+        # one case in four: the real DBOSIdleReleaseDecorator over an emulated DBOS base, with bursts of concurrent senders
+        return st.one_of(case(), case(), lock_case(), dbos_idle.strategy(tier, bursts=True).map(lambda c: {"dbos": c}))
 
     # ------------------------------------------------------------------ DBOS lifecycle lock (real SqliteRunLifecycleLock)
     def _run_lock_case(self, case):
@@ -196,6 +203,10 @@ class C26(Prop):
 
     def run_case(self, case):
         case = json.loads(json.dumps(case))
+        if "dbos" in case:
+            r = self.dbos.run_case(case["dbos"])
+            r.classes = ["dbos_decorator"] + ["dbos_" + c for c in r.classes]
+            return r
         if case.get("kind") == "lock":
             return self._run_lock_case(case)
         r = CaseResult()
@@ -322,3 +333,8 @@ class C26(Prop):
 
 
 PROP = C26
+
+from .. import dbos_idle as _dbos_idle  # noqa: E402
+
+C26.rule = C26.rule + " DBOS DECORATOR HALF (one case in four): " + _dbos_idle.RULE + " " + _dbos_idle.RULE_BURSTS
+C26.assumptions = list(C26.assumptions) + ["DBOS decorator half: " + a for a in _dbos_idle.ASSUMPTIONS + _dbos_idle.ASSUMPTIONS_BURSTS]
